@@ -12,7 +12,9 @@ the `Determinism` model (harness/c18_sites.json) and the code.  It finds
     * properties and functions whose return annotation is a set type or whose every `return`
       returns a set display / comprehension / `set()` call or a local name bound to one (e.g. `System.root_names`, which is
       annotated `Collection[str]`); matched by NAME at attribute accesses and calls,
-    * `|  &  -  ^` and `.union/.intersection/.difference/.symmetric_difference/.copy` of those,
+    * `|  &  -  ^` and `.union/.intersection/.difference/.symmetric_difference/.copy` of those, and `|  &  -  ^`
+      applied to a dict view (`d.keys() - other`: a set; a view that is merely iterated is insertion ordered and
+      is NOT a site),
   unordered listings
     * `.iterdir()`, `.glob()`, `.rglob()`, `os.listdir()`, `os.scandir()`, `os.walk()`,
 
@@ -227,7 +229,8 @@ class Scanner(ast.NodeVisitor):
                     return True
             return False
         if isinstance(e, ast.BinOp) and isinstance(e.op, (ast.BitOr, ast.BitAnd, ast.Sub, ast.BitXor)):
-            return self.is_set(e.left) or self.is_set(e.right)
+            # set algebra; also on dict views: `d.keys() - other` / `d.items() & other` build a SET
+            return self.is_set(e.left) or self.is_set(e.right) or self.is_view(e.left) or self.is_view(e.right)
         if isinstance(e, ast.IfExp):
             return self.is_set(e.body) or self.is_set(e.orelse)
         if isinstance(e, ast.BoolOp):
@@ -235,6 +238,11 @@ class Scanner(ast.NodeVisitor):
         if isinstance(e, ast.NamedExpr):
             return self.is_set(e.value)
         return False
+
+    @staticmethod
+    def is_view(e: ast.expr) -> bool:
+        """`x.keys()` / `x.items()`: ordered when iterated, but a set as soon as `- & | ^` is applied"""
+        return isinstance(e, ast.Call) and isinstance(e.func, ast.Attribute) and e.func.attr in ("keys", "items") and not e.args
 
     def is_setdict(self, e: ast.expr) -> bool:
         if isinstance(e, ast.Name):
@@ -424,6 +432,47 @@ def scan(repo: Path) -> List[Dict[str, str]]:
     return sites
 
 
+class _SortScanner(ast.NodeVisitor):
+    def __init__(self, rel: str) -> None:
+        self.rel = rel
+        self.names: List[str] = []
+        self.found: List[Dict[str, str]] = []
+
+    def _scoped(self, node: ast.AST) -> None:
+        self.names.append(node.name)  # type: ignore[attr-defined]
+        self.generic_visit(node)
+        self.names.pop()
+
+    visit_FunctionDef = visit_AsyncFunctionDef = visit_ClassDef = _scoped  # type: ignore
+
+    def visit_Call(self, node: ast.Call) -> None:
+        what = None
+        if isinstance(node.func, ast.Name) and node.func.id == "sorted" and node.args:
+            what = ast.unparse(node.args[0])
+        elif isinstance(node.func, ast.Attribute) and node.func.attr == "sort" and not node.args:
+            what = ast.unparse(node.func.value)
+        if what is not None:
+            kw = {k.arg: ast.unparse(k.value) for k in node.keywords if k.arg}
+            self.found.append({"file": self.rel, "function": ".".join(self.names) or "<module>", "sorted": what,
+                               "key": kw.get("key", "-"), "reverse": kw.get("reverse", "-"), "line": str(node.lineno)})
+        self.generic_visit(node)
+
+
+def scan_sorts(repo: Path) -> List[Dict[str, str]]:
+    """every `sorted(...)` / `.sort(...)` call of `<repo>/pydoctor/**/*.py` (tests and the vendored sre_parse
+    excluded) with the expression sorted and the key expression: the sort sites of the presentation order"""
+    base = Path(repo) / "pydoctor"
+    res: List[Dict[str, str]] = []
+    for p in sorted(base.rglob("*.py")):
+        rel = p.relative_to(repo).as_posix()
+        if "/test/" in "/" + rel or rel.endswith("sre_parse36.py") or rel.endswith("sre_constants36.py"):
+            continue
+        sc = _SortScanner(rel)
+        sc.visit(ast.parse(p.read_text(encoding="utf-8"), filename=rel))
+        res.extend(sc.found)
+    return res
+
+
 def key(site: Dict[str, str]) -> Tuple[str, str, str]:
     return (site["file"], site["function"], site["expression"])
 
@@ -432,4 +481,6 @@ if __name__ == "__main__":
     import json
     import sys
     for s in scan(Path(sys.argv[1] if len(sys.argv) > 1 else "/repo")):
+        print(json.dumps(s))
+    for s in scan_sorts(Path(sys.argv[1] if len(sys.argv) > 1 else "/repo")):
         print(json.dumps(s))
